@@ -11,7 +11,7 @@ from stdcfg import repo_cfg
 CONST_NAMES = ["VAR_A", "VAR_B", "FLAG_A", "FLAG_C", "TRAINER_A", "ITEM_A", "ITEM_B", "walk_up", "K_ONE", "K_HEX", "ÉTAGE", "VAR_RESULT",
                "A", "B", "ZZ", "V", "MSGBOX_X", "face_left", "SELF", "K_MULTI", "lock"]
 CONST_VALUES = ["1", "0x1f", "0xAB", "010", "-3", "VAR_TEMP_1", "FLAG_TEMP", "ITEM_NONE", "ITEM_Z", "BASE + 2", "( BASE + 1 ) * 2", "K_ONE", "K_ONE + K_HEX",
-                "SELF", "walk_down", "OTHER | FLAG", "7 8"]
+                "SELF", "walk_down", "OTHER | FLAG", "7 8", "W *\n  H", "A <\n  B", "X\n  * Y", "1 <<\n  4", "N -\n  1", "BASE +\n    NUM - 1", "0x10", "0"]
 
 def const_preamble(r):
     lines = []; used = set()
@@ -23,7 +23,7 @@ def const_preamble(r):
 
 TEXTS = ["Hello there", "100% sure %s %d", "ROUTE 1 \u3000PALLET \u00a0TOWN", "aaaa aaa aa aaa aa aaa aa aaa aa aaa", "Price: 100$", "é ñ ü 𠮷野 😀", "{PLAYER} got {STR_VAR_1}!", "a\\nb\\lc\\pd", "x{y z}w }", "", "$", "ends\\0",
          "tab\\there", "many   spaces   here", "LV. 50", "K_ONE", "VAR_A", "A", "lock", "Our #1 shop", "see //this one", "a /* b", "x */ y", "{K_ONE}: hi {VAR_A 15}", "Total: \\0", "a \\h b \\0", "\\0 \\x", "\\0", "\\\\\\0", "$", "\\"]
-TYPES = ["", "", "ascii", "braille", "custom", "jp"]
+TYPES = ["", "", "ascii", "braille", "custom", "jp", "JPN", "fixedString"]
 
 def lit(r, t=None):
     t = r.choice(TEXTS) if t is None else t
@@ -83,11 +83,12 @@ def extras(r, k):
             out.append("raw `\n%s\n`" % r.choice(["X%d_raw:\n\tnop\n\tend" % k, "@ é 😀 comment", "", "\t.byte 1, 2\n\n\t.byte 3"]))
         else:
             cmd = r.choice(["msgbox(%s)" % lit(r), "msgbox(%s, MSGBOX_X)" % fmt_call(r), "applymovement(1, moves(walk_up * 2 face_left))", "setvar(VAR_A, 0x1f)", "cmd(global)", "cmd(local)",
-                            "goto_if_set(FLAG_A, X%d_L)" % k, "random(3)", "special(Foo)", "call(X%d_0)" % k, "two(%s, %s)" % (lit(r), lit(r)), "price(PRICE_OF(ITEM_A, 2), %s)" % lit(r), "mv(OBJ(1, MAP_X), moves(walk_up * 2 face_left))",
-                            "goto_if_unset(FLAG_B, Ext_L)", "setvar(VAR_A, BASE-1)", "addvar(VAR_A, 10-3)", "multichoice(0, 0, 2_OPTIONS, 1)", "setvar(VAR_A, 0x10_MASK)", "addvar(VAR_A, -3_STEPS, 1_000)", "setvar(VAR_A, K_ONE (K_HEX + 1))", "addvar(K_HEX(3), (VAR_A) K_ONE 5)",
+                            "goto_if_set(FLAG_A, X%d_L)" % k, "getpricereduction(POKENEWS_LILYCOVE)", "warpmuted(MAP_X, 1, 2)", "cmdD8", "checkmonobedience(VAR_0x8004)", "setmonobedient(VAR_0x8004)", "mossdeepgym1(2)", "faceplayer", "waitstate", "closemessage", "playse(SE_DOOR)", "call(Common_Reward)", "goto(Ext_L)", "random(3)", "special(Foo)", "call(X%d_0)" % k, "two(%s, %s)" % (lit(r), lit(r)), "price(PRICE_OF(ITEM_A, 2), %s)" % lit(r), "mv(OBJ(1, MAP_X), moves(walk_up * 2 face_left))",
+                            "goto_if_unset(FLAG_B, Ext_L)", "setvar(VAR_A, BASE-1)", "addvar(VAR_A, 10-3)", "setvar(VAR_MASK, FLAG_A|~FLAG_B)", "setvar(VAR_MASK, FLAG_A | ~FLAG_B)", "setvar(V, BASE--OFFSET)", "setvar(V, BASE - -OFFSET)", "setvar(V, 1<<4, A>>B, X<-1)", "loadword(0, \"shared\" + 2)", "loadword(0, \"Welcome!\" + 2) msgbox(\"Welcome!\")",
+                            "setobjectxyperm(LOCALID, 7 -3)", "loadbytes(TABLE_BASE -2 -1 4, (ROW) -1)", "setshopkind(mart, 2)", "initshop(mart(SHOP_ID), text, 1)", "multichoice(0, 0, 2_OPTIONS, 1)", "setvar(VAR_A, 0x10_MASK)", "addvar(VAR_A, -3_STEPS, 1_000)", "setvar(VAR_A, K_ONE (K_HEX + 1))", "addvar(K_HEX(3), (VAR_A) K_ONE 5)",
                             'two(ascii"REX", "Is that ok?") msgbox("Is that ok?")', 'sign(braille"ABC", "ABC$", %s)' % lit(r)])
             cond = r.choice(["flag(FLAG_A)", "!defeated(TRAINER_A)", "var(VAR_A) >= value(0x4001)", "random(4) == 2 && flag(FLAG_A) || specialvar(VAR_X, 7) != 0", "checkitem(ITEM_A)", "var(VAR_B) != K_ONE", "var(VAR_A) == TRUE", "var(VAR_B) != false", "!(var(VAR_A) != TRUE) && random(3) == FALSE",
-                            "flag(FLAG_A) && flag(FLAG_K) || flag(FLAG_B) && flag(FLAG_K)", "random(10) == 0 || random(10) == 0", "checkitem(ITEM_A) && flag(FLAG_A)"])
+                            "flag(FLAG_A) && flag(FLAG_K) || flag(FLAG_B) && flag(FLAG_K)", "random(10) == 0 || random(10) == 0", "checkitem(ITEM_A) && flag(FLAG_A)", "getpricereduction(POKENEWS_LILYCOVE) == 1", "flag(FLAG_A) || checkmonobedience(VAR_0x8004)", "var(VAR_A) == 0x8004", "var(VAR_B) >= 16500 || var(VAR_A) < 0x4000", "flag(FLAG_A) && var(VAR_A) != 32770"])
             wrap = r.choice(["{cmd}", "if ({cond}) {{ {cmd} }}", "while ({cond}) {{ {cmd} }}", "do {{ {cmd} }} while ({cond})",
                              "switch (var(VAR_A)) {{ case 1: case K_ONE + 1: {cmd} default: x case 0x3: }}", "X%d_L(global): {cmd} goto(X%d_L)" % (k, k)])
             b = wrap.format(cmd=cmd, cond=cond)
@@ -106,7 +107,7 @@ def mix_cfg(r):
                  "1_latin_rse": {"maxLineLength": 208, "numLines": 2, "cursorOverlapWidth": 10, "widths": {"default": 6, " ": 3, "a": 6, "b": 6}},
                  "1_latin_frlg": {"maxLineLength": 0, "numLines": 0, "cursorOverlapWidth": 0, "widths": {"default": 8, "{PLAYER}": 0, "$": 0}}}
         c = base_cfg(fontdefault=r.choice(["F1", "F1", "F2", ""]), fonts=fonts, deffont=r.choice(["", "", "F2"]), maxlen=r.choice([0, 0, 70]), **kw)
-    c.autovars = dict(AUTOVARS)
+    c.autovars = dict(AUTOVARS, getpricereduction=("VAR_RESULT", None), checkmonobedience=("VAR_RESULT", None))
     if r.random() < 0.2: c.autovars["special"] = ("VAR_SPECIAL", None)
     if r.random() < 0.1: c.autovars["specialvar"] = ("", r.choice([0, 1, 5, -1]))
     return c
@@ -300,6 +301,7 @@ GLUE_BODIES = [
     'mapscripts M {\n\tMAP_SCRIPT_ON_LOAD {\n\t\tlock\n\t}\n\tMAP_SCRIPT_ON_FRAME_TABLE [\n\t\tVAR_T, 1 { end }\n\t]\n}\n',
     'script S {\n\tif (checkitem(ITEM_A, 1) == TRUE) {\n\t\tyes\n\t}\n\tS_1:\n\tno\n}\n',
     'script Quiz {\n\tif (checkitem(ITEM_T) && msgbox(Quiz_Ready, MSGBOX_YESNO, VAR_TEMP_1) == YES) {\n\t\ta\n\t}\n\tdo {\n\t\tb\n\t} while (msgbox(Quiz_Again, MSGBOX_YESNO, VAR_TEMP_2) == YES)\n\tif (choosemon == 0xFF) {\n\t\tc\n\t}\n}\n',
+    'script Coins {\n\tif (checkcoins(50) == TRUE) {\n\t\ta\n\t}\n\twhile (flag(F) && specialvar(VAR_TEMP_1, GetX) != 0) {\n\t\tb\n\t}\n\tswitch (random(9)) {\n\t\tcase 1: c\n\t}\n}\n',
     '', 'script', '# only a comment', 'script S {\n\tmsgbox("unterminated)\n}\n',
 ]
 def gen_cli(rnd, n):
@@ -320,6 +322,6 @@ def gen_cli(rnd, n):
         cfg = Cfg(optimize=rnd.random() < 0.5, lm=rnd.random() < 0.6, lint=False,
                   path=rnd.choice(["", "", "in.pory", "a b.pory", "Route%20101.pory", "%s%d.pory", "./x.pory", "d1/d2//y.pory", "é.pory", "dir\\sub\\f.pory"]),
                   deffont=rnd.choice(["", "", "sign", "dialog", "nope"]), maxlen=rnd.choice([0, 0, 0, 40, 1000]), switches=sw,
-                  autovars=dict(AUTOVARS, msgbox=("", 2), yesnobox=("VAR_0x8005", None)), fontdefault=rnd.choice(["dialog", "dialog", "sign", ""]), fonts=fonts, nofc=rnd.random() < 0.12)
+                  autovars=dict(AUTOVARS, msgbox=("", 2), yesnobox=("VAR_0x8005", None), **({"specialvar": ("VAR_RESULT", None), "checkcoins": ("VAR_RESULT", None)} if i % 3 == 0 else {"checkcoins": ("", 0), "random": ("", 0)} if i % 3 == 1 else {})), fontdefault=rnd.choice(["dialog", "dialog", "sign", ""]), fonts=fonts, nofc=rnd.random() < 0.12)
         out.append(Case(compile_line(cfg, src), src, cfg, {"mix": True, "glue": True}))
     return out
